@@ -54,7 +54,7 @@ CLAIMED = {
         "null values keep their own (first) group, the whole table is invariant under permutation of the RAW rows (binning included: compute_bias_perm_full, every feature type and method), and head(n_bins) never drops a group. Tie: correspondence with the real compute_bias "
         "over feature types x 10 bin methods x functionals x weights x 1-3 models, compared inside Coq.",
    note="Partial: the polars group_by/window engine is not modelled (its meaning is tied by correspondence only); sqrt and the Student-t CDF are not rational: stderr is compared squared and p_value against "
-        "2*scipy.special.stdtr(df, -sqrt(t^2)) computed from the model's pieces; 'identical on repeated calls' is observed (two calls compared). Known finding: features whose only non-null values are infinite (see C13).",
+        "2*scipy.special.stdtr(df, -sqrt(t^2)) computed from the model's pieces; 'identical on repeated calls' is observed (two calls compared).",
    technique="Coq proof (list induction, Permutation) + vm_compute correspondence + judge by exact per-group definition", ref="4 C09"),
  "C11": dict(
    text="Machine-checked proof (Coq) about the executable model of IsotonicRegression.fit/predict (model/IsoFit.v: stable sort by (X, y in tie order), isotonic_regression, threshold index selection incl. special cases, "
@@ -68,10 +68,10 @@ CLAIMED = {
    text="Machine-checked proof (Coq, world Q, axiom-free) about the executable model of bin_feature: every row gets exactly one bin, null/NaN rows the null bin and only they; for ANY non-decreasing edge vector the reported "
         "edges contain the value (left-open, first bin closed), bin numbers are monotone in the value, equal values share a bin; quantile/uniform give at most n_bins groups incl. the null bin; strings: the most frequent "
         "categories are kept with ties in natural order, k >= 2 pooled categories, label 'other k' is fresh against every category (and every declared enum category), label is the count for k < 1000. "
-        "Tie: correspondence with the real bin_feature over float/int/bool/str/Categorical/Enum features with null/NaN/inf, 10 bin methods. Three genuine defects were found and repaired (fixes 3ff5ebb, f02e33e, 9ce4ae5).",
+        "Tie: correspondence with the real bin_feature over float/int/bool/str/Categorical/Enum features with null/NaN/inf, 10 bin methods. Four genuine defects were found and repaired (fixes 3ff5ebb, f02e33e, 9ce4ae5, b2b5cba); bin_numeric_accepts / bin_string_accepts prove that every documented feature type is accepted.",
    note="Partial: five of numpy's eight histogram rules (auto, fd, doane, scott, stone) are not rational; their interior edges enter the model as data (sortedness is a hypothesis of bin_contains for them). sturges (the library default), sqrt and rice "
         "are computed inside Coq incl. binary64 rounding of the edges (model/NumpyRules.v) and compared with np.histogram_bin_edges bit for bit. np.quantile(inverted_cdf) is modelled by its definition. "
-        "Known findings: columns whose only non-null values are +-inf; float range overflow / adjacent floats inside np.histogram_bin_edges.",
+        "Known findings: float range overflow / adjacent floats inside np.histogram_bin_edges. Four genuine defects repaired (3ff5ebb, f02e33e, 9ce4ae5, b2b5cba).",
    technique="Coq proof (list induction) + vm_compute correspondence + judge by brute force", ref="4 C13"),
 
  "C17": dict(
